@@ -9,6 +9,11 @@ from common import BUILD, REPO, VERIF, run
 VERUS_DIR = os.path.join(VERIF, "verus")
 sys.path.insert(0, VERUS_DIR)
 import extract as X  # noqa: E402
+import hashlib  # noqa: E402
+
+# a tree other than /repo (evaluation of a seeded change on a scratch worktree) gets its own scratch files, so that
+# it can run next to a check of /repo
+_TAG = "" if os.path.realpath(REPO) == "/repo" else "_" + hashlib.md5(REPO.encode()).hexdigest()[:8]
 
 
 def _origin(linemap, line):
@@ -29,7 +34,7 @@ def _enclosing_fn(text_lines, line):
 def run_unit(name, canary=False, timeout=600):
     """returns dict(status=ok|failed|undecided, functions=[...], failures=[...], ...)"""
     unit_path = os.path.join(VERUS_DIR, "units", name + ".py")
-    out_dir = os.path.join(BUILD, "verus")
+    out_dir = os.path.join(BUILD, "verus" + _TAG)
     os.makedirs(out_dir, exist_ok=True)
     tag = name + ("_canary" if canary else "")
     rs = os.path.join(out_dir, tag + ".rs")
@@ -39,6 +44,12 @@ def run_unit(name, canary=False, timeout=600):
     X.CANARY = canary
     try:
         unit = X.load_unit(unit_path)
+        if unit.get("needs_expanded"):
+            err = expand_crate()
+            X.EXPANDED_PATH = EXPANDED
+            if err:
+                res["reason"] = "macro expansion failed: " + err
+                return res
         text, linemap, diffs, functions = X.extract(unit, REPO, VERUS_DIR)
     except X.AnchorLost as e:
         res["reason"] = "extraction: anchor lost: %s" % e
@@ -139,6 +150,20 @@ def run_unit(name, canary=False, timeout=600):
     else:
         res["status"] = "ok"
     return res
+
+
+EXPANDED = os.path.join(BUILD, "expand", "expanded%s.rs" % _TAG)
+
+
+def expand_crate():
+    """macro-expand the current /repo tree (derive(Nom) output) with the nightly toolchain; returns error text or ''"""
+    os.makedirs(os.path.dirname(EXPANDED), exist_ok=True)
+    tgt = os.path.join(BUILD, "expand", "target" + _TAG)
+    rc, so, se, wall = run(["cargo", "+nightly", "rustc", "--offline", "--lib", "--target-dir", tgt, "--", "-Zunpretty=expanded"], cwd=REPO, timeout=900)
+    if rc != 0 or "mod tls_dh" not in so:
+        return (se or so)[-1500:]
+    open(EXPANDED, "w").write(so)
+    return ""
 
 
 def obligation_name(unit, f):
